@@ -214,7 +214,7 @@ fn supervisor(a: &Args) -> i32 {
             // SimWorld shares one process between simulated processes: process-wide state in the code
             // under test (a one-shot static flag) would be seen by the first run only.  A slice of the
             // runs is therefore repeated with one fresh worker process per run.
-            let k: u64 = if a.tier == Tier::Thorough { 2000 } else { 200 };
+            let k: u64 = p.fresh_runs(a.tier);
             let n = a.runs.unwrap_or_else(|| p.runs(a.tier)).min(k);
             let next = std::sync::atomic::AtomicU64::new(0);
             let bad = std::sync::Mutex::new(Vec::<(u64, String)>::new());
